@@ -3,7 +3,7 @@
    the statements are tied to the regenerated description of the source. *)
 From Coq Require Import List NArith Bool.
 From LBZ Require Import Gen.Consts SchedX.XState Gen.SchedXTab SchedX.XSet SchedX.XModel SchedX.XInvDefs
-  SchedX.XF4 SchedX.XOracle SchedX.XSeq SchedX.XC10 SchedX.XGranule.
+  SchedX.XF4 SchedX.XOracle SchedX.XSeq SchedX.XC10 SchedX.XGranule SchedX.XOwn SchedX.XC11b.
 Import ListNotations.
 Local Open Scope N_scope.
 
@@ -32,6 +32,19 @@ Theorem C09_process :
     (completed st1 -> x_failed st2 = None) /\
     (exists l, x_written st1 = x_written st2 ++ l \/ x_written st2 = x_written st1 ++ l).
 Proof. exact C09_process_gen. Qed.
+
+(* The same for runs that have terminated ([terminated]: nothing failed and can_terminate()
+   holds), over runs whose POk labels advance the bit position by at least 32 bits
+   ([opreach], see Properties_C10.C10_speculation_free_terminated for why parse() does). *)
+Theorem C09_process_terminated :
+  forall (O : oracle) n1 tin1 tout1 u1 n2 tin2 tout2 u2 st1 st2 L R,
+    SeqDec O 0 0 L R ->
+    opreach O gen_cfg (init_state n1 tin1 tout1 u1) st1 ->
+    opreach O gen_cfg (init_state n2 tin2 tout2 u2) st2 ->
+    (terminated st1 -> terminated st2 -> x_written st1 = x_written st2) /\
+    (terminated st1 -> x_failed st2 = None) /\
+    (exists l, x_written st1 = x_written st2 ++ l \/ x_written st2 = x_written st1 ++ l).
+Proof. exact C09_process_term_gen. Qed.
 
 (* Output buffer size: two cuttings of the blocks' output into buffers (out_granul) that
    agree block-wise (the codec-layer fact about the resumable emit()) give sequential
